@@ -65,6 +65,114 @@ func genTime(r *lib.Rng, res int64, centre int64) time.Time {
 	return time.Unix(0, centre+k*a+delta).UTC()
 }
 
+type input struct {
+	nfields, idx int
+	md, res      int64
+	script       []lib.Event
+	preEpoch     bool
+}
+
+func pickCentre(r *lib.Rng) int64 {
+	return pick(r, []int64{0, 0, 0, -5000000000, 1600000000000000000, -1600000000000000000, 7})
+}
+
+func genInput(r *lib.Rng, nfields, idx int, centre int64) input {
+	res := genResolution(r)
+	md := genMaxDiff(r, res)
+	ln := r.Intn(13)
+	var script []lib.Event
+	var prev []time.Time
+	preEpoch := false
+	for j := 0; j < ln; j++ {
+		if r.Chance(1, 8) {
+			script = append(script, lib.Event{IsWM: true, WM: time.Unix(0, centre+int64(r.Intn(50))).UTC()})
+			continue
+		}
+		var t time.Time
+		if len(prev) > 0 && r.Chance(1, 4) {
+			t = prev[r.Intn(len(prev))] // duplicate instant
+		} else {
+			t = genTime(r, res, centre)
+		}
+		prev = append(prev, t)
+		if !t.IsZero() && t.Unix() < 0 {
+			preEpoch = true
+		}
+		vals := make([]octosql.Value, nfields)
+		for k := range vals {
+			vals[k] = lib.GenValue(r, lib.SmallProfile, 0)
+		}
+		vals[idx] = octosql.NewTime(t)
+		if r.Chance(1, 30) {
+			vals[idx] = octosql.NewNull()
+		}
+		et := time.Time{}
+		if r.Chance(1, 3) {
+			et = time.Unix(0, int64(r.Intn(100))+1).UTC() // whatever the source said; it is overwritten
+		}
+		script = append(script, lib.Event{Rec: execution.NewRecord(vals, r.Chance(1, 5), et)})
+	}
+	return input{nfields, idx, md, res, script, preEpoch}
+}
+
+// runNode builds (or reuses) a node and runs it, with outer as the enclosing record when not nil.
+func runNode(build func() (execution.Node, error), outer []octosql.Value) (kind int, out []lib.Event, note string) {
+	kind = 2
+	defer func() {
+		if p := recover(); p != nil {
+			kind, note = 2, fmt.Sprintf("panic while materializing: %v", p)
+		}
+	}()
+	node, err := build()
+	if err != nil {
+		return 1, nil, err.Error()
+	}
+	if node == nil {
+		return 0, nil, ""
+	}
+	o, e, p := c18kit.RunInContext(node, outer, nil, 1<<20)
+	if p != nil {
+		note = fmt.Sprintf("panic: %v", p)
+	} else if e != nil {
+		note = e.Error()
+	}
+	return c18kit.Kind(e, p), o, note
+}
+
+func addCase(cf *lib.CaseFile, in input, kind int, out []lib.Event, note, how string) {
+	nwm, nrec, nin := 0, 0, 0
+	for _, e := range out {
+		if e.IsWM {
+			nwm++
+		} else {
+			nrec++
+		}
+	}
+	for _, e := range in.script {
+		if !e.IsWM {
+			nin++
+		}
+	}
+	js := map[string]interface{}{"how": how, "max_diff": in.md, "resolution": in.res, "time_field": in.idx, "input": c18kit.EventsJSON(in.script),
+		"kind": kind, "output": c18kit.EventsJSON(out), "note": note}
+	cf.Add(fmt.Sprintf("(%s, %s, %d%%nat, %s, %d, %s)", lib.Z(in.md), lib.Z(in.res), in.idx, c18kit.CoqEvents(in.script), kind, c18kit.CoqEvents(out)),
+		js, nwm >= 2 && nrec < nin && kind == 0)
+	cf.Count(fmt.Sprintf("kind_%d", kind))
+	if in.res <= 0 {
+		cf.Count("resolution_not_positive")
+	}
+	if in.preEpoch {
+		cf.Count("with_pre_epoch_instant")
+	}
+	if nrec < nin && kind == 0 {
+		cf.Count("with_dropped_record")
+	}
+	if nwm > 5 {
+		nwm = 5
+	}
+	cf.Count(fmt.Sprintf("watermarks_%d", nwm))
+}
+
 func main() {
 	f := lib.ParseFlags()
 	if f.Cmd != "run" {
@@ -78,101 +186,53 @@ func main() {
 	cf.Checks = []lib.Check{{Name: "tie", Kind: "tie", Fn: "c20_tie"}, {Name: "spec", Kind: "spec", Fn: "c20_spec"}}
 	cf.Side.Rule = "streams of 0..12 events (records with a Time field near multiples of the resolution around the epoch, before it and far from it; duplicates, out of order, " +
 		"retractions, source watermarks, a few NULL / zero / extreme times) x resolution (1 ns..1 day, huge, 0, negative) x max_diff (0, multiples, negative, extreme) through the real " +
-		"max_diff_watermark node; non-trivial = at least two watermarks emitted and at least one record dropped; distinct by full case text"
-	n := f.Cases(500, 5000)
+		"max_diff_watermark node built once and run once (constant arguments), and built once and run three times with max_diff/resolution read from the enclosing record " +
+		"(second run = the first run's input again, third = a new input around the same instants); non-trivial = at least two watermarks emitted and at least one record dropped; distinct by full case text"
+	n := f.Cases(400, 4000)
 	for i := 0; i < n; i++ {
 		r := rng.Fork()
 		nfields := 1 + r.Intn(3)
+		in := genInput(r, nfields, r.Intn(nfields), pickCentre(r))
+		kind, out, note := runNode(func() (execution.Node, error) {
+			return c18kit.Mdw(&lib.ScriptSource{Events: in.script}, time.Duration(in.md), time.Duration(in.res), in.idx, in.nfields)
+		}, nil)
+		addCase(cf, in, kind, out, note, "constant arguments, one run")
+	}
+	// One materialized node whose max_diff and resolution are variables of the enclosing record, run three
+	// times (a lookup join or a correlated subquery re-runs its joined side per outer record): the second
+	// run replays the first run's input, the third a new one around the same instants.  Nothing of an
+	// earlier run may survive in the node; every run is a case of its own.
+	for g, groups := 0, f.Cases(40, 400); g < groups; g++ {
+		r := rng.Fork()
+		nfields := 1 + r.Intn(3)
 		idx := r.Intn(nfields)
-		res := genResolution(r)
-		md := genMaxDiff(r, res)
-		centre := pick(r, []int64{0, 0, 0, -5000000000, 1600000000000000000, -1600000000000000000, 7})
-		ln := r.Intn(13)
-		var script []lib.Event
-		var prev []time.Time
-		preEpoch := false
-		for j := 0; j < ln; j++ {
-			if r.Chance(1, 8) {
-				script = append(script, lib.Event{IsWM: true, WM: time.Unix(0, centre+int64(r.Intn(50))).UTC()})
+		centre := pickCentre(r)
+		src := &c18kit.ResettableSource{}
+		var node execution.Node
+		kind0, _, note0 := runNode(func() (execution.Node, error) {
+			nd, err := c18kit.MdwVar(src, idx, nfields)
+			node = nd
+			return nil, err
+		}, nil)
+		var first input
+		for run := 0; run < 3; run++ {
+			in := genInput(r, nfields, idx, centre)
+			if run == 0 {
+				first = in
+			}
+			if run == 1 {
+				in = first
+			}
+			if node == nil {
+				addCase(cf, in, kind0, nil, note0, "variable arguments, node could not be built")
 				continue
 			}
-			var t time.Time
-			if len(prev) > 0 && r.Chance(1, 4) {
-				t = prev[r.Intn(len(prev))] // duplicate instant
-			} else {
-				t = genTime(r, res, centre)
-			}
-			prev = append(prev, t)
-			if !t.IsZero() && t.Unix() < 0 {
-				preEpoch = true
-			}
-			vals := make([]octosql.Value, nfields)
-			for k := range vals {
-				vals[k] = lib.GenValue(r, lib.SmallProfile, 0)
-			}
-			vals[idx] = octosql.NewTime(t)
-			if r.Chance(1, 30) {
-				vals[idx] = octosql.NewNull()
-			}
-			et := time.Time{}
-			if r.Chance(1, 3) {
-				et = time.Unix(0, int64(r.Intn(100))+1).UTC() // whatever the source said; it is overwritten
-			}
-			script = append(script, lib.Event{Rec: execution.NewRecord(vals, r.Chance(1, 5), et)})
+			src.Events = in.script
+			outer := []octosql.Value{octosql.NewDuration(time.Duration(in.md)), octosql.NewDuration(time.Duration(in.res)), octosql.NewNull(), octosql.NewNull()}
+			kind, out, note := runNode(func() (execution.Node, error) { return node, nil }, outer)
+			addCase(cf, in, kind, out, note, fmt.Sprintf("variable arguments, run %d of the same node", run+1))
+			cf.Count("rerun_of_one_node")
 		}
-		kind, out := 2, []lib.Event(nil)
-		var note string
-		func() {
-			defer func() {
-				if p := recover(); p != nil {
-					kind, note = 2, fmt.Sprintf("panic while materializing: %v", p)
-				}
-			}()
-			node, err := c18kit.Mdw(&lib.ScriptSource{Events: script}, time.Duration(md), time.Duration(res), idx, nfields)
-			if err != nil {
-				kind, note = 1, err.Error()
-				return
-			}
-			o, e, p := lib.RunNode(node)
-			out, kind = o, c18kit.Kind(e, p)
-			if p != nil {
-				note = fmt.Sprintf("panic: %v", p)
-			} else if e != nil {
-				note = e.Error()
-			}
-		}()
-		nwm, nrec, nin := 0, 0, 0
-		for _, e := range out {
-			if e.IsWM {
-				nwm++
-			} else {
-				nrec++
-			}
-		}
-		for _, e := range script {
-			if !e.IsWM {
-				nin++
-			}
-		}
-		js := map[string]interface{}{"max_diff": md, "resolution": res, "time_field": idx, "input": c18kit.EventsJSON(script),
-			"kind": kind, "output": c18kit.EventsJSON(out), "note": note}
-		idxCase := cf.Add(fmt.Sprintf("(%s, %s, %d%%nat, %s, %d, %s)", lib.Z(md), lib.Z(res), idx, c18kit.CoqEvents(script), kind, c18kit.CoqEvents(out)),
-			js, nwm >= 2 && nrec < nin && kind == 0)
-		_ = idxCase
-		cf.Count(fmt.Sprintf("kind_%d", kind))
-		if res <= 0 {
-			cf.Count("resolution_not_positive")
-		}
-		if preEpoch {
-			cf.Count("with_pre_epoch_instant")
-		}
-		if nrec < nin && kind == 0 {
-			cf.Count("with_dropped_record")
-		}
-		if nwm > 5 {
-			nwm = 5
-		}
-		cf.Count(fmt.Sprintf("watermarks_%d", nwm))
 	}
 	if err := cf.Write(f.Out); err != nil {
 		fmt.Fprintln(os.Stderr, err)
